@@ -27,7 +27,7 @@ def cli_status(rc):
     return 'fail'
 
 
-def judge_programs(chk, exe, progs, wd, tag, budget=20000, cli_sample=0, rng=None, want_extra=()):
+def judge_programs(chk, exe, progs, wd, tag, budget=20000, cli_sample=0, rng=None, want_extra=(), cli_force=None):
     """run every program through the real pipeline in-process (and a sample through the real CLI), judge with TraceSource.
     Returns (outs, verdicts)."""
     recs = [{'id': i, 'text': p['text'], 'want': ['ast', 'run'] + list(want_extra), 'budget': budget} for i, p in enumerate(progs)]
@@ -50,7 +50,9 @@ def judge_programs(chk, exe, progs, wd, tag, budget=20000, cli_sample=0, rng=Non
     if cli_sample:
         rng = rng or random.Random(seed())
         ids = [r['id'] for r in srecs]
-        for i in rng.sample(ids, min(cli_sample, len(ids))):
+        forced = [i for i in ids if cli_force is not None and cli_force(progs[i]['name'])]
+        rest = [i for i in ids if i not in set(forced)]
+        for i in forced + rng.sample(rest, min(cli_sample, len(rest))):
             rc, so, se = cli_run(exe, progs[i]['text'], wd)
             st = cli_status(rc)
             if st is None:
@@ -103,15 +105,17 @@ def judge_programs(chk, exe, progs, wd, tag, budget=20000, cli_sample=0, rng=Non
 
 def c01(tier):
     chk = Check('C01', tier)
-    chk.rule = ('programs = in-repo corpus + seeded random programs in the defined fragment (AST generated, unparsed with random parenthesization/layout, '
-                'so the real parser is in the loop) + every construct x context x frame kind (+ construct pairs, thorough); each is run through parse, compile, '
+    chk.rule = ('programs = in-repo corpus (+ edge and limit programs) + seeded random programs in the defined fragment (AST generated, unparsed with random parenthesization/layout, '
+                'so the real parser is in the loop) + every construct x context x frame kind (+ construct pairs, thorough) + definitions sandwiched between control flow in every frame kind; each is run through parse, compile, '
                 'serialize, load, interpret in-process and a sample through the real `fml run`; TLC runs the README semantics FMLSource on the AST and compares '
                 'status and output. distinct_nontrivial = distinct source texts judged inside the fragment.')
     exe = build('debug')
     wd = scratch('c01')
     progs = pool.corpus() + pool.random_programs(tier_sizes(tier, 300, 8000), size=tier_sizes(tier, 30, 45)) + \
-        pool.construct_family(pairs=(tier == 'thorough'), limit=tier_sizes(tier, 400, None))
-    outs, vs = judge_programs(chk, exe, progs, wd, 'c01', cli_sample=tier_sizes(tier, 60, 600))
+        pool.construct_family(pairs=(tier == 'thorough'), limit=tier_sizes(tier, 400, None)) + pool.sandwich_programs()
+    # the real command line (exit status, stderr) for a sample, and always for the edge programs and for every construct placed as the last statement of the program
+    outs, vs = judge_programs(chk, exe, progs, wd, 'c01', cli_sample=tier_sizes(tier, 60, 600),
+                              cli_force=lambda n: n.startswith('edge:') or '/top_last/' in n or n.startswith('sandwich:if/two/'))
     k = 0
     for i, p in enumerate(progs):
         if i in vs and vs[i]['agree'] and vs[i]['frag'] and vs[i]['outlen'] > 0 and p['name'].startswith('gen') and k < 3:
@@ -451,6 +455,11 @@ COUNT_PROBES = [
     ('literal-size-0-effectful-initializer', 'let c = 0; function t() -> begin c <- c + 1; print("init~;", c); c end; let a = array(0, t()); let b = array(1, t()); let d = array(2, t()); print("~ ~ ~ ran ~\\n", a, b, d, c)'),
     ('literal-size-negative-effectful-initializer', 'let c = 0; function t() -> begin c <- c + 1; print("init~;", c); c end; print("before\\n"); let a = array(-1, t()); print("never ~\\n", c)'),
     ('literal-size-1-block-initializer', 'let a = array(1, begin print("once;"); 5 end); print("~\\n", a)'),
+    ('discarded-operator-on-plain-operands', 'let o = object begin let n = 0; function +(k) -> begin this.n <- this.n + k; this.n end; function ==(k) -> begin this.n <- this.n + 100; true end; function <(k) -> begin this.n <- this.n + 1000; false end end; let five = 5; '
+     'o + 5; o + five; begin o + 1; 0 end; o == null; o < 3; let i = 0; while i < 2 do begin o + 10; i <- i + 1 end; if true then o + 20 else o + 40; function f() -> begin o + 7; 0 end; f(); print("~\\n", o.n)'),
+    ('discarded-operator-on-fields', 'let o = object begin let n = 0; let w = object begin let v = 2 end; function *(k) -> begin this.n <- this.n + k; this end end; o * o.w.v; o.w.v * 3; o * 1 * 2; o.*(4); print("~\\n", o.n)'),
+    ('discarded-index-and-call-on-plain-operands', 'let o = object begin let n = 0; function get(i) -> begin this.n <- this.n + 1; i end; function set(i, v) -> begin this.n <- this.n + 10; v end; function m() -> begin this.n <- this.n + 100; 0 end end; '
+     'o[0]; o[1] <- 2; o.m(); o.get(3); begin o[0]; o.m(); 0 end; print("~\\n", o.n)'),
     ('loop-condition-count', 'let n = 0; function c() -> begin n <- n + 1; print("c~;", n); n < 3 end; while c() do print("b;"); print(" n=~\\n", n)'),
     ('object-parent-once', 'let n = 0; function p() -> begin n <- n + 1; null end; let o = object extends p() begin let a = p(); let b = p() end; print("~ ~\\n", n, o)'),
 ]
